@@ -4,6 +4,7 @@ package symgo
 // Each entry is part of the verification claim and is listed in evidence.
 
 import (
+	"encoding/json"
 	"fmt"
 	"go/token"
 	"go/types"
@@ -765,6 +766,47 @@ func init() {
 				e = fr.i.errUnwrap(e)
 			}
 			return false
+		},
+	})
+
+	// ---- encoding/json (scalars only: used for default values of schema properties)
+	reg(map[string]externalFn{
+		"encoding/json.Unmarshal": func(fr *frame, args []value) value {
+			raw, _ := args[0].([]value)
+			b := make([]byte, len(raw))
+			for i, x := range raw {
+				b[i] = x.(byte)
+			}
+			var host any
+			if err := json.Unmarshal(b, &host); err != nil {
+				return fr.i.mkError(err.Error(), nil)
+			}
+			target, ok := args[1].(iface)
+			if !ok || target.t == nil {
+				return fr.i.mkError("json: Unmarshal(nil)", nil)
+			}
+			p, ok := target.v.(*value)
+			if !ok || p == nil {
+				return fr.i.mkError("json: Unmarshal(non-pointer)", nil)
+			}
+			var v value
+			switch h := host.(type) {
+			case nil:
+				v = iface{}
+			case bool:
+				v = iface{types.Typ[types.Bool], h}
+			case float64:
+				v = iface{types.Typ[types.Float64], h}
+			case string:
+				v = iface{types.Typ[types.String], h}
+			default:
+				abortf("encoding/json.Unmarshal of a non-scalar document is not modelled")
+			}
+			if _, isIface := mustDeref(target.t).Underlying().(*types.Interface); !isIface {
+				abortf("encoding/json.Unmarshal into %s is not modelled", target.t)
+			}
+			*p = v
+			return iface{}
 		},
 	})
 
